@@ -114,6 +114,23 @@ CHECKS["C20"] = dict(
          "kinds, each binding a real Service.",
     ref="DESIGN.md §6 C20", technique="Coq proof (case analysis; Atoi lemmas) + exhaustive differential correspondence over the environment product")
 
+CHECKS["C07"] = dict(
+    text="Translation validation per run: every sampled description of the stated domain goes through the real generator binary twice (determinism); the output "
+         "is compiled and vetted against /repo's varlink package and a program prints the reported name and description; plus a Gallina model of generateTemplate "
+         "validated byte-for-byte (through gofmt) against the generator, with theorems on totality, package name, raw-string round trip of name/description and the "
+         "conversion rule (Props/C07.v when present).",
+    ref="DESIGN.md §6 C07", technique="translation validation by the Go toolchain per generated program + Coq proof about a validated generator model",
+    cat="translation_validation",
+    note="'compiles and type-checks' as a whole is decided per sampled program by the Go compiler, not by a theorem. ")
+CHECKS["C08"] = dict(
+    text="Per sampled description the generated package is compiled with a generated test program: generated client stubs talk to the generated dispatcher over a "
+         "unix socket with random typed values; the frames on the wire, the values the service implementation receives and the values / typed errors the client "
+         "returns are compared with the varlink JSON mapping read directly from the description (single replies, more-sequences, oneway, typed errors, "
+         "MethodNotImplemented, MethodNotFound, InvalidParameter, flags).",
+    ref="DESIGN.md §6 C08", technique="translation validation: execution of generated code against the JSON mapping derived from the description",
+    cat="translation_validation",
+    note="What the generated Go code does is Go semantics: connected to the specification by execution only. ")
+
 NOT_YET = {
 }
 
@@ -133,7 +150,7 @@ def main():
             evidence_file="evidence/%s.json" % pid,
             replay_cmd_template="./check %s --replay {path}" % pid,
             engine="coq-model+correspondence",
-            level_claimed=dict(category="proof", text=c["text"], design_ref=c["ref"]),
+            level_claimed=dict(category=c.get("cat", "proof"), text=c["text"], design_ref=c["ref"]),
             level_note=c.get("note", "") + TRUST,
             technique=c["technique"]))
     na = [dict(property_id=p, reason=NOT_YET.get(p, "check not built yet in this revision of /verif (claimed in DESIGN.md; see build order §8)"))
